@@ -70,9 +70,24 @@ func genC13(cfg Config, emit Emit) error {
 			w.Invs = []int{}
 		}
 		normalize(w)
+		// blocks attached to proofs before the tokens citing them are issued
+		if r.Intn(3) == 0 {
+			for i := range w.Tokens {
+				if r.Intn(3) == 0 && len(w.Tokens) < 190 {
+					w.Tokens[i].PreAttach = 1 + r.Intn(2)
+				}
+			}
+		}
 		attach := r.Intn(5)
 		emit("roundtrip", []string{mustJSON(w), itoa(attach), itoa(r.Intn(1 << 30))}, class, len(w.Tokens) > 1)
 	})
+	// the codec every block goes through, against the Lean byte-level model
+	nc, nb := 400, 30
+	if cfg.Thorough() {
+		nc, nb = 8000, 400
+	}
+	genCbor(cfg, emit, nc)
+	genCborBlocks(cfg, emit, nb)
 	return nil
 }
 
@@ -228,6 +243,26 @@ func execRoundtrip(a []string) Result {
 			attached[tid] = append(attached[tid], id)
 		}
 	}
+	// blocks attached before citation travel with every token that embeds the proof: E(t)
+	for i := range w.Tokens {
+		for k := 0; k < w.Tokens[i].PreAttach; k++ {
+			extra[preBlock(i, k).Link().String()] = preBlockID(i, k)
+		}
+	}
+	expectPre := make([]map[int]bool, len(w.Tokens))
+	for i := range w.Tokens { // ids are topologically ordered: proofs first
+		expectPre[i] = map[int]bool{}
+		for k := 0; k < w.Tokens[i].PreAttach; k++ {
+			expectPre[i][preBlockID(i, k)] = true
+		}
+		for pi, p := range w.Tokens[i].Prfs {
+			if p >= 0 && p < i && pi < len(w.Tokens[i].Inline) && w.Tokens[i].Inline[pi] {
+				for id := range expectPre[p] {
+					expectPre[i][id] = true
+				}
+			}
+		}
+	}
 	// 1. the link of every delegation is the CID of its root block bytes
 	for i, d := range cw.D {
 		h, _ := mh.Sum(d.Root().Bytes(), mh.SHA2_256, -1)
@@ -251,6 +286,25 @@ func execRoundtrip(a []string) Result {
 		want, _ := blockIDs(cw, d.Blocks(), extra)
 		got, ierr := blockIDs(cw, x.Blocks(), extra)
 		chk(ierr == nil && sameInts(want, got), fmt.Sprintf("token %d after Archive/Extract: blocks %v became %v", i, want, got))
+		for id := range expectPre[i] {
+			chk(hasInt(got, id), fmt.Sprintf("token %d after Archive/Extract: block %d attached to an embedded proof is gone", i, id))
+		}
+		// load -> attach -> store -> load: what is attached to a loaded delegation is written out with it
+		late := rawCborBlock([]byte{0x18, 0xfe})
+		extra[late.Link().String()] = 19999
+		if x.Attach(late) == nil {
+			if ab2, err := io.ReadAll(x.Archive()); err == nil {
+				x2, err := delegation.Extract(ab2)
+				chk(err == nil, fmt.Sprintf("token %d: re-archived delegation no longer extracts", i))
+				if err == nil {
+					got2, _ := blockIDs(cw, x2.Blocks(), extra)
+					chk(hasInt(got2, 19999), fmt.Sprintf("token %d: a block attached after loading is not written by Archive", i))
+					for _, id := range want {
+						chk(hasInt(got2, id), fmt.Sprintf("token %d: block %d lost by load, attach, store, load", i, id))
+					}
+				}
+			}
+		}
 		s, err := delegation.Format(d)
 		if err != nil {
 			chk(false, fmt.Sprintf("token %d: format: %v", i, err))
@@ -278,7 +332,13 @@ func execRoundtrip(a []string) Result {
 			}
 		}
 		bsOut[i] = own
-		chk(sameInts(att, attached[i]), fmt.Sprintf("token %d: attached blocks %v iterate as %v", i, attached[i], att))
+		wantAtt := append([]int(nil), attached[i]...)
+		for id := range expectPre[i] {
+			wantAtt = append(wantAtt, id)
+		}
+		sort.Ints(wantAtt)
+		sort.Ints(att)
+		chk(sameInts(att, wantAtt), fmt.Sprintf("token %d: attached blocks %v iterate as %v", i, wantAtt, att))
 	}
 	w.BS = bsOut
 	// 3. a message of the invocations through the request codec
@@ -312,6 +372,15 @@ func execRoundtrip(a []string) Result {
 				}
 				if df := sameDelegation(inv, v, 0); df != "" {
 					chk(false, fmt.Sprintf("invocation %d after the request codec: %s", w.Invs[k], df))
+				}
+				for id := range expectPre[w.Invs[k]] {
+					found := false
+					for b := range back.Blocks() {
+						if extra[b.Link().String()] == id {
+							found = true
+						}
+					}
+					chk(found, "a block attached to an embedded proof is lost by the request codec")
 				}
 				for _, at := range attached[w.Invs[k]] {
 					found := false
@@ -388,4 +457,13 @@ func execRoundtrip(a []string) Result {
 	}
 	bsj, _ := json.Marshal(bsOut)
 	return Result{Args: []string{mustJSON(&w), a[1], a[2]}, Impl: "bs=" + hash4(string(bsj)) + "|readback=" + map[bool]string{true: "T", false: "F"}[len(bad) == 0], Oracle: oracle}
+}
+
+func hasInt(l []int, x int) bool {
+	for _, y := range l {
+		if y == x {
+			return true
+		}
+	}
+	return false
 }
